@@ -319,6 +319,151 @@ fn schedules(tier: Tier, st: &mut Stats, universes: &[Universe]) {
     st.merge(results.into_inner().unwrap());
 }
 
+/// All ordered pairs (s1, s2) of short sentences on one worker: the result for s2 must be the
+/// fresh-tokenizer result whatever s1 was (broad universes; complements the deep histories over
+/// a few sentences).
+fn ordered_pairs(tier: Tier, st: &mut Stats) {
+    let mut us = u_lex(tier);
+    let mut uu = u_unk(tier);
+    uu.retain(|u| u.name.contains("/mult2/") && (u.name.contains("T=012") || u.name.contains("T=101") || u.name.contains("T=113")));
+    us.extend(uu);
+    if tier == Tier::Quick {
+        us = us.into_iter().enumerate().filter(|(i, u)| i % 3 == 0 || u.name.contains("space-comma")).map(|x| x.1).collect();
+    }
+    let res = par_explore(us.len(), |ui, st| {
+        let u = &us[ui];
+        let max_len = if u.alphabet.len() <= 5 { 3 } else { 2 };
+        let sentences = all_strings(&u.alphabet, max_len);
+        for &opts in &u.opts {
+            let (d, _) = u.build().unwrap_or_else(|e| {
+                println!("MACHINERY: {} does not build: {e}", u.name);
+                std::process::exit(2)
+            });
+            let t = make_tokenizer(d, opts).unwrap();
+            let fresh: Vec<Option<Vec<Tok>>> = sentences
+                .iter()
+                .map(|s| {
+                    let (fd, _) = u.build().unwrap();
+                    let ft = make_tokenizer(fd, opts).unwrap();
+                    run_fresh(&ft, s, false).ok().map(|r| r.tokens)
+                })
+                .collect();
+            for s1 in &sentences {
+                let mut w = t.new_worker();
+                if guard(|| {
+                    w.reset_sentence(s1);
+                    w.tokenize();
+                })
+                .is_err()
+                {
+                    continue; // K1-style dictionaries: fresh tokenization of s1 panics as well
+                }
+                for (j, s2) in sentences.iter().enumerate() {
+                    let Some(want) = &fresh[j] else { continue };
+                    st.states += 1;
+                    st.transitions += 1;
+                    // s1 is re-established before every s2 so that each pair starts from the same state
+                    let got = guard(|| {
+                        w.reset_sentence(s1);
+                        w.tokenize();
+                        w.reset_sentence(s2);
+                        w.tokenize();
+                        read_tokens(&w)
+                    });
+                    st.count("ordered_sentence_pairs_on_one_worker");
+                    match got {
+                        Ok(g) if &g == want => {}
+                        other => {
+                            st.violation(Finding {
+                                class: if other.is_err() { "pair-panic".into() } else { "previous-sentence-changes-result".into() },
+                                what: format!(
+                                    "worker tokenized {:?} and then {:?}: got {:?}, a fresh worker gives {:?} [universe {} {:?}]",
+                                    s1,
+                                    s2,
+                                    other.map(|g| g.iter().map(|t| (t.surface.clone(), t.total)).collect::<Vec<_>>()),
+                                    want.iter().map(|t| (t.surface.clone(), t.total)).collect::<Vec<_>>(),
+                                    u.name,
+                                    opts
+                                ),
+                                replay: json!({"kind": "worker_history", "dictionary": u.describe(), "ignore_space": opts.ignore_space, "max_grouping_len": opts.mgl,
+                                    "history": [format!("reset_sentence({s1:?})"), "tokenize()", format!("reset_sentence({s2:?})"), "tokenize()"]}),
+                            });
+                            break;
+                        }
+                    }
+                }
+            }
+        }
+    });
+    st.merge(res);
+}
+
+/// Supplementary, NOT exhaustive: the same worker bodies free-running on real cores (no
+/// scheduler), so that races between points that are not scheduling points (inside one
+/// connection-cost lookup, say) have a chance to show. A mismatch is a genuine violation
+/// (observed result differs from the sequential one) but is not replayable as a schedule.
+fn free_running(tier: Tier, st: &mut Stats, universes: &[Universe]) {
+    let rounds = tier.pick(1500, 20000);
+    for ui in [1usize, 5, 6, 2] {
+        let Some(u) = universes.get(ui) else { continue };
+        let opts = Opts { ignore_space: false, mgl: 0 };
+        struct ForceShare(Tokenizer);
+        unsafe impl Sync for ForceShare {}
+        unsafe impl Send for ForceShare {}
+        let (d, _) = u.build().unwrap();
+        let shared = ForceShare(make_tokenizer(d, opts).unwrap());
+        let sents = ["a", "ab", "ba", "abc", "cab", "bca", "aab", "cc"];
+        let expected: Vec<Option<Vec<Tok>>> = sents
+            .iter()
+            .map(|s| {
+                let (fd, _) = u.build().unwrap();
+                let ft = make_tokenizer(fd, opts).unwrap();
+                run_fresh(&ft, s, false).ok().map(|r| r.tokens)
+            })
+            .collect();
+        let bad = Mutex::new(None::<String>);
+        let shared = &shared;
+        let expected = &expected;
+        let bad_ref = &bad;
+        std::thread::scope(|sc| {
+            for th in 0..4usize {
+                sc.spawn(move || {
+                    let mut w = shared.0.new_worker();
+                    for r in 0..rounds {
+                        for k in 0..sents.len() {
+                            let i = (k + th + r) % sents.len();
+                            let got = guard(|| {
+                                w.reset_sentence(sents[i]);
+                                w.tokenize();
+                                read_tokens(&w)
+                            })
+                            .ok();
+                            if got != expected[i] {
+                                let mut b = bad_ref.lock().unwrap();
+                                if b.is_none() {
+                                    *b = Some(format!("thread {th} round {r}: {:?} gives {:?}, sequentially {:?}", sents[i], got.map(|g| g.iter().map(|t| (t.surface.clone(), t.total)).collect::<Vec<_>>()), expected[i].as_ref().map(|g| g.iter().map(|t| (t.surface.clone(), t.total)).collect::<Vec<_>>())));
+                                }
+                                return;
+                            }
+                        }
+                        if r % 64 == 0 && bad_ref.lock().unwrap().is_some() {
+                            return;
+                        }
+                    }
+                });
+            }
+        });
+        st.add("free_running_rounds (sampling, supplementary)", rounds as u64);
+        if let Some(m) = bad.into_inner().unwrap() {
+            st.violation(Finding {
+                class: "free-running-threads-differ".into(),
+                what: format!("4 free-running threads, own worker each, one shared tokenizer (universe {}): {m}", u.name),
+                replay: json!({"kind": "free_running", "dictionary": u.describe(), "sentences": sents, "threads": 4, "note": "not replayable as a schedule: found by the supplementary free-running pass"}),
+            });
+        }
+    }
+}
+
 pub fn run(tier: Tier) -> i32 {
     let mut rep = Report::new("C04", tier);
     let universes = pick_universes(tier);
@@ -342,12 +487,15 @@ pub fn run(tier: Tier) -> i32 {
         }
     }
     histories(tier, &mut st, &universes);
+    ordered_pairs(tier, &mut st);
     schedules(tier, &mut st, &universes);
-    rep.rule = "E2: state = operation history of one worker over {reset_sentence(s) for 6 sentences, tokenize}; all histories up to the depth, each re-executed on a fresh real worker and compared with the reference state machine (sentence, tokenized?). E3: state = schedule; all interleavings of 2-3 real threads (own worker each, one shared tokenizer) at the instrumented yield points with at most P preemptions; per-thread observations must equal the sequential ones. distinct = distinct observed token sequences".into();
+    free_running(tier, &mut st, &universes);
+    rep.rule = "E2: state = operation history of one worker over {reset_sentence(s) for 6 sentences, tokenize}; all histories up to the depth, each re-executed on a fresh real worker and compared with the reference state machine (sentence, tokenized?). E2b: all ordered pairs (s1, s2) of sentences <= 3 chars on one worker over the lexicon/cost and unknown-word universes. E3: state = schedule; all interleavings of 2-3 real threads (own worker each, one shared tokenizer) at the instrumented yield points with at most P preemptions; per-thread observations must equal the sequential ones. distinct = distinct observed token sequences".into();
     rep.bounds = json!({"history_depth": tier.pick(5, 7), "ops": 7, "sentences": SENTENCES, "max_preemptions": tier.pick(2, 3), "threads": "2-3"});
     rep.assumptions = vec![
         "interleavings are explored at the instrumented yield points (entry/exit and inside reset_sentence/tokenize, every lattice position); between them the code performs no synchronisation".into(),
         "hardware memory-ordering effects are not modelled".into(),
+        "a supplementary free-running pass (4 real threads, no scheduler) samples interleavings below the granularity of the yield points; it is reported as sampling and is not part of the exhaustive claim".into(),
     ];
     if st.get("schedule_caps_hit") > 0 {
         rep.cap_note = Some("a schedule exploration hit its execution cap; see notes".into());
@@ -358,6 +506,7 @@ pub fn run(tier: Tier) -> i32 {
             "histories_with_repeated_tokenize",
             "histories_with_shorter_after_longer",
             "context_switches_inside_api_calls",
+            "ordered_sentence_pairs_on_one_worker",
         ],
     )
 }
